@@ -97,10 +97,10 @@ PENDING = "check not built yet in this revision (designed in DESIGN.md §2; it w
 
 # sixth-round additions to the level notes (rules added from the round-6 seeds and reports; DESIGN.md section 2, "Sixth round")
 SIXTH = {
- "C01": "R01.3 helper clause, R01.30 (composite literal built apart from its destination), R01.31/R01.32 (return statement, cfg and callBin agree on direct stores; found D98), R01.33 (return f() forwards every value; D99), R01.34 (declared functions as values; D104).",
- "C02": "R02.13 (no dead class case), R02.14 (no process-wide memo), R02.15, R02.16 (unsigned kinds not read as signed), R02.17 (nil comparison selects the non-nil operand; D97), R02.18 (switch tag never converted; D100).",
- "C03": "R03.16 (= R02.14), R03.17 (acceptance independent of the operator), R03.18 (folders give fresh values), R03.19 (sign test in the unsigned case), R03.20 (= R02.16).",
- "C04": "R04.1 through helpers, R04.13 for every generator, R04.17 (literals populate a value of their own), R04.18 (= R07.7), R04.19 (literal whose address is taken; D93), R04.20 (interface conversion copies; D92), R04.21 (append spreads by the ellipsis; D95), R04.22 (temporaries typed by the value; D96). The frozen exception of R04.8 mentioned above was removed in the fifth round (D74).",
+ "C01": "R01.3 helper clause, R01.30 (composite literal built apart from its destination), R01.31/R01.32 (return statement, cfg and callBin agree on direct stores; found D98), R01.33 (return f() forwards every value; D99), R01.34 (declared functions as values; D104), R01.35 (a struct literal wraps for an interface destination only when built there; D111, a regression of D38), R01.36 (no possibly-nil successor stored).",
+ "C02": "R02.13 (no dead class case), R02.14 (no process-wide memo), R02.15, R02.16 (unsigned kinds not read as signed), R02.17 (nil comparison selects the non-nil operand; D97), R02.18 (switch tag never converted; D100), R02.19 (result cells allocated per execution), R02.20 (operation results not computed in a variable two levels up).",
+ "C03": "R03.16 (= R02.14), R03.17 (acceptance independent of the operator), R03.18 (folders give fresh values), R03.19 (sign test in the unsigned case), R03.20 (= R02.16), R03.21 (folders take their exact result from go/constant); R03.17 also refuses acceptances decided on the magnitude of the operands.",
+ "C04": "R04.1 through helpers, R04.13 for every generator, R04.17 (literals populate a value of their own), R04.18 (= R07.7), R04.19 (literal whose address is taken; D93), R04.20 (interface conversion copies; D92), R04.21 (append spreads by the ellipsis; D95), R04.22 (temporaries typed by the value; D96), R04.23 (= R05.11: the receiver copy is made after the dereference). The frozen exception of R04.8 mentioned above was removed in the fifth round (D74).",
  "C05": "R05.11 pointer receivers (D91), R05.12 (every exit completes v, ok), R05.13, R05.14, R05.15 (= R04.20), R05.16 (failed single-value assertion panics; D101), R05.17 (type switch on interface values; D102), R05.18 (shallowest promoted member; D103).",
  "C06": "R06.2 consumer clause (the deferred list is not replaced), R06.4 no exit between the deferred calls and the test of recovered.",
  "C07": "R07.1 through helpers, R07.19 (= R05.6), R07.20 (= R04.13 on callBin), R07.21 (= R01.34).",
@@ -108,13 +108,13 @@ SIXTH = {
  "C09": "R09.8 (= R08.1 on the generators creating frames or host callbacks), R09.9 (goroutines of go statements defer a guard; D110).",
  "C10": "R10.6 (= R06.2 consumer clause: a cancelled frame runs its deferred calls).",
  "C11": "R11.13 (every returned program is compiled by the call), R11.14 (package-level variables of a, b := f() are globals; D107); R11.4 has one named exception (the debugger's closure generation, D94).",
- "C12": "R12.17 (representable dominates convertConst), R12.18, R12.19 (registration after the checking passes), R12.20 (division by constant zero; D105), R12.21 (return arity; D106), R12.22 (case expressions checked against the tag; D109).",
+ "C12": "R12.17 (representable dominates convertConst), R12.18, R12.19 (registration after the checking passes), R12.20 (division by constant zero; D105), R12.21 (return arity; D106), R12.22 (case expressions checked against the tag; D109), R12.23 (only multi-value calls are unpacked), R12.24 (returns checked against the scope's current function), R12.25 (functions, slices, maps never comparable).",
  "C13": "R13.5 overrides unconditional on the streams.",
  "C15": "R15.14 (every variable reference is a dependency), R15.15 and R15.5 refined (names declared by a type expression are not references; D108).",
- "C16": "R16.5 examines disjunctions, R16.8 (= R02.14).",
+ "C16": "R16.5 examines disjunctions, R16.8 (= R02.14), R16.9 (the being-imported mark is removed on every exit).",
  "C17": "R17.14 (the constraint evaluator remembers nothing).",
  "C18": "R18.10 (types spelled by the qualified writer), R18.11 (no state between extractions).",
- "C19": "R19.11 (no table keyed by a code address), R19.12 (frame debug data never dropped), R19.13 (no code generation from arbitrary nodes; D94).",
+ "C19": "R19.11 (no table keyed by a code address), R19.12 (frame debug data never dropped), R19.13 (no code generation from arbitrary nodes; D94), R19.14 (the debugger is consulted before every node).",
 }
 for _k, _v in SIXTH.items():
     c = CLAIMED[_k]
